@@ -528,7 +528,8 @@ func (s *badgerStore) Stats() (*store.Stats, error) {
 		if err := loopItem(txn, []byte("vip:balance:"), &b, countBalance); err != nil {
 			return err
 		}
-		if err := loopItem(txn, []byte("vip:trial:"), &b, countBalance); err != nil {
+		countTrialBalance := func() error { stats.CountTrialBalance(b); return nil }
+		if err := loopItem(txn, []byte("vip:trial:"), &b, countTrialBalance); err != nil {
 			return err
 		}
 
